@@ -1,7 +1,88 @@
+/-
+  C07 driver handler.  A case is one record (length, topology), one ruleset and a list of *runs*:
+  each run is the same genes on a re-indexed origin (own gene locations and record order) and/or a
+  permutation / sub-selection of the rules (indices into the case's ruleset), together with what the
+  real pipeline reported for it.  For every run the handler returns
+    * the C03 model's stages (anchoring genes, protoclusters before / after the superiors step, final
+      protoclusters) — the correspondence;
+    * C03's executable spec (`Chains.verdict`) on the reported protoclusters and the spec's chains
+      (`Chains.chainsOf`, as sets of gene numbers) — used to say *which* of two disagreeing runs is wrong;
+    * C06's executable spec (`Components.judgeRegions`) on the reported candidate clusters / regions,
+      with the two recorded classes (`halfRecordComponent`, `fullRecordClash`).
+  All comparisons between runs are made in Python.
+-/
 import ASV.Drv.J
+import ASV.Drv.C03
+import ASV.Spec.Components
+import ASV.Model.DetectRecord
 namespace ASV.Drv.C07
-open Lean ASV ASV.Drv
+open Lean ASV ASV.Drv ASV.Rules ASV.Proto
 
-def handle (_j : Json) : R Json := throw "C07: no model yet"
+def pcJ (within : Lookup) (pc : PC) : Json :=
+  jObj [("rule", Json.str pc.rule), ("core", locToJson pc.core), ("loc", locToJson pc.loc),
+        ("genes", toJson (Components.sortNats ((within pc.core false).map (·.id))))]
+
+def natsJ (l : List Nat) : Json := toJson (Components.sortNats l)
+
+/-- the clusters the superiors step removed, each with "a superior's core contains its core" -/
+def removedJ (within : Lookup) (rules : List RuleM) (extended kept : List PC) : Json :=
+  jArr ((extended.filter fun pc => !kept.contains pc).map fun pc =>
+    let sups := match rules.find? (·.name == pc.rule) with | some r => r.superiors | none => []
+    let covered := extended.any fun o => sups.contains o.rule && locationContainsOther o.core pc.core
+    jObj [("rule", Json.str pc.rule), ("genes", natsJ ((within pc.core false).map (·.id))), ("covered", toJson covered)])
+
+def areaOfJson (j : Json) : R Components.Area := do
+  return (← asNat (← idx j 0), ← locOfJson (← idx j 1))
+
+def regionOfJson (j : Json) : R (Loc × List Nat) := do
+  return (← locOfJson (← idx j 0), ← listOf asNat (← idx j 1))
+
+def runOne (len : Int) (circ : Bool) (allRules : List RuleM) (j : Json) : R Json := do
+  let genes ← listOf C03.geneOfJson (← fld j "genes")
+  let order ← listOf asNat (← fld j "order")
+  let ordered := order.filterMap fun n => genes.find? (·.id == n)
+  let r : Rec := ⟨len, circ, ordered⟩
+  let sel ← listOf asNat (← fld j "rules")
+  let rules := sel.filterMap fun i => allRules[i]?
+  let within := withinReal r
+  let stages := detectStages within r rules
+  let model := match stages with
+    | .ok s => jObj [
+        ("anchors", jArr (s.anchors.map fun a => jArr [Json.str a.1, natsJ a.2])),
+        ("ext", jArr (s.extended.map (pcJ within))),
+        ("removed", removedJ within rules s.extended s.kept),
+        ("final", jArr (s.final.map C03.pcToJson))]
+    | .error e => jObj [("err", Json.str e)]
+  let impl ← match j.getObjVal? "impl" with
+    | .ok .null => pure none
+    | .ok v => do pure (some (← listOf C03.implOfJson v))
+    | .error _ => pure none
+  let v := Chains.verdict r rules impl
+  let chains := rules.map fun rule =>
+    jArr [Json.str rule.name, jArr ((Chains.chainsOf r rule).map fun c => natsJ (c.map (·.id)))]
+  let regions ← match j.getObjVal? "areas", j.getObjVal? "regions" with
+    | .ok a, .ok g => do
+      if a.isNull || g.isNull then pure Json.null else
+      let areas ← listOf areaOfJson a
+      let regs ← listOf regionOfJson g
+      let w := Components.judgeRegions len circ areas regs
+      pure (jObj [("partition", toJson w.partition), ("disjoint", toJson w.disjoint), ("exact", toJson w.exact),
+                  ("wf", toJson w.wf), ("classes", toJson (Components.classIds areas)),
+                  ("half", toJson (circ && Components.halfRecordComponent len areas)),
+                  ("clash", toJson (circ && (Components.fullRecordClash len (areas.map (·.2))
+                                             || Components.fullRecordClash len (regs.map (·.1)))))])
+    | _, _ => pure Json.null
+  return jObj [("model", model),
+    ("spec", jObj [("ok", toJson v.ok), ("why", Json.str v.why), ("known", Json.str v.known),
+                   ("groups", toJson v.groups), ("maxgroup", toJson v.maxGroup), ("long", toJson v.longChain)]),
+    ("chains", jArr chains), ("regions", regions),
+    ("wf", toJson (Chains.inputsWF r rules))]
+
+def handle (j : Json) : R Json := do
+  let len ← intF j "len"
+  let circ ← boolF j "circ"
+  let allRules ← listOf C03.ruleOfJson (← fld j "rules")
+  let runs ← listOf (runOne len circ allRules) (← fld j "runs")
+  return jObj [("runs", jArr runs)]
 
 end ASV.Drv.C07
